@@ -122,7 +122,8 @@ fn build_compare_op(
     let kind = DeriveItemKind::CompareOp(op);
     let (impl_g, type_g, _) = source.generics().split_for_impl();
     let this_ty_ident = source.ident();
-    let this_ty: Type = parse_quote!(#this_ty_ident #type_g);
+    let this_ty: Type =
+        crate::syn_utils::brace_const_args(parse_quote!(#this_ty_ident #type_g), source.generics());
     let trait_ = kind.to_path();
 
     let mut wcb = WhereClauseBuilder::new(source.generics());
